@@ -469,7 +469,10 @@ fn render_miette(err: &Error, text: &str, fm: Fm) -> MietteOut {
     });
     let mut g = String::new();
     let gh = GraphicalReportHandler::new_themed(GraphicalTheme::unicode_nocolor()).with_width(100);
-    let graphical = gh.render_report(&mut g, d).map(|_| g).map_err(|_| ());
+    // (miette's own graphical handler pads its marker lines with a run-time format width, which
+    // panics above u16::MAX - third-party code, nothing the adapter could hand over differently:
+    // with a line that long only what the adapter itself produces is judged)
+    let graphical = if text.lines().any(|l| l.len() > 60_000) { Ok(String::new()) } else { gh.render_report(&mut g, d).map(|_| g).map_err(|_| ()) };
     let mut n = String::new();
     let narrated = NarratableReportHandler::new().render_report(&mut n, d).map(|_| n).map_err(|_| ());
     MietteOut { message, labels, label_offsets, source, graphical, narrated }
@@ -1213,6 +1216,29 @@ fn sig_secondary_gutter(c: &Case, f: &Facts) -> bool {
     last >= 10
 }
 
+/// Open finding `c17-second-window-from-cropped-region`: the error keeps horizontally cropped
+/// copies of the source regions it may have to show; once a line of a region is longer than
+/// 4 KiB it is cropped around the column of the *first* location, and a second location on the
+/// same lines (the "defined here" window, a later validation issue) is rendered from that text:
+/// the window is empty or shows the wrong part of the line.
+/// Predicate: two distinct locations (or a validation report with an alias), and a line longer
+/// than 4000 bytes within two lines of either.
+fn sig_second_window_cropped_region(c: &Case, f: &Facts) -> bool {
+    let Some(e) = &f.err else { return false };
+    let lines = &f.model.lines;
+    let long_near = |l: usize| (l.saturating_sub(3)..(l + 2).min(lines.len())).any(|i| lines[i].len() > 4000);
+    if is_validation(e) {
+        return lines.iter().any(|l| l.len() > 4000);
+    }
+    let Some(ls) = e.locations() else { return false };
+    let (r, d) = (ls.reference_location, ls.defined_location);
+    if r == Location::UNKNOWN || d == Location::UNKNOWN || r == d {
+        return false;
+    }
+    let _ = c;
+    long_near(r.line() as usize) || long_near(d.line() as usize)
+}
+
 /// Open finding `c17-marker-left-of-trimmed-margin`: the located column lies inside the leading
 /// blanks / tabs of its line while some line of the window is wider than the renderer's 140
 /// display columns once tabs are expanded to 4 (cropping counts a tab as one column): the renderer
@@ -1888,7 +1914,16 @@ impl Property for C17 {
         if f.model.lone_cr && f.loc.is_some() {
             v.push("lone_cr_line_break");
         }
+
         v
+    }
+    fn failure_signature(c: &Case, msg: &str) -> Option<&'static str> {
+        // (keyed on the failure as well: the same cases must still be judged for panics and
+        // control characters)
+        if msg.contains("window") && !msg.contains("panic") && !(is_reader(c.entry) && reader_hang_risk(&c.text)) && sig_second_window_cropped_region(c, &facts(c)) {
+            return Some("second_window_from_cropped_region");
+        }
+        None
     }
     fn shrink(c: &Case) -> Vec<Case> {
         let mut out = vec![];
@@ -2333,6 +2368,36 @@ fn gen_all(ctx: &mut Ctx<C17>) {
                 }
             }
         }
+    }
+    // --- 5a. two-window reports whose definition site lies at a very large column ------------------
+    // (a sub-agent observation: the hand-written "defined here" window padded the marker line with
+    // a run-time format width, which panics above u16::MAX)
+    {
+        let mut idx = 0u64;
+        for n in [65_520usize, 65_534, 65_535, 65_536, 70_000, 140_000] {
+            for gap in [0usize, 3, 8] {
+                for crop in [64usize, 100_000, 1_000_000, usize::MAX] {
+                    for entry in [Entry::Str, Entry::Reader8192] {
+                        for multibyte in [false, true] {
+                            idx += 1;
+                            if !ctx.mine(idx) {
+                                continue;
+                            }
+                            let fill: String = if multibyte { "\u{e9}".repeat(n) } else { "a".repeat(n) };
+                            // one flow mapping over several lines: unknown field `pad` is ignored,
+                            // `count` is defined far to the right, `flag` uses it as a bool
+                            let mut text = format!("{{pad: \"{fill}\", count: &val 42,\n");
+                            for i in 0..gap {
+                                text.push_str(&format!("# gap {i}\n"));
+                            }
+                            text.push_str("flag: *val}\n");
+                            emit(ctx, &t, "two-windows-far-column", text, Target::Alias, entry, opts_with(crop, true));
+                        }
+                    }
+                }
+            }
+        }
+        ctx.subspace("definition site at columns 65520..140000 x gap {0,3,8} x radius {64, 1e5, 1e6, max} x 2 entry points x ASCII / multi-byte fill", idx, true);
     }
     t.flush(ctx);
 
